@@ -62,6 +62,10 @@ def reshape_arrays(draw):
     if nd >= 3 and draw(st.integers(0, 3)) == 0:
         i = draw(st.integers(0, nd - 2))
         pre = [i, i + 1]
+        if all(sum(idxs[k]["cm"].values()) == 1 for k in pre):
+            # a pre-fused axis made of size-one axes only: shapes carry no
+            # information about it, any regrouping is a guess (excluded)
+            pre = None
     return {"x": spec, "prefuse": pre}
 
 
@@ -79,17 +83,32 @@ def subsizes_of(x):
 
 
 def plan_unfuses(x, newshape, axis_struct):
-    """does the library's plan for x -> newshape unfuse the axis of x whose
-    index equals axis_struct (the axis that was fused before the test)?"""
+    """Is x -> newshape inherently ambiguous because of the axis of x that
+    was fused before the test (index == axis_struct)?  True iff the library's
+    plan unfuses that axis AND the plan is a valid regrouping that yields
+    exactly the requested shape AND the request is not the current shape:
+    then a second valid regrouping (leaving the axis alone) exists and sizes
+    alone cannot tell which one undoes the earlier reshape.  A plan that
+    yields another shape, raises, or touches an identity reshape is NOT in
+    this class (those were defects, repaired by 13ed92b)."""
     from symmray.abelian_core import calc_reshape_args
     from ..compare import index_struct
 
+    if tuple(newshape) == tuple(x.shape):
+        return False
+    subs = subsizes_of(x)
     ok, plan = attempt(calc_reshape_args, tuple(x.shape), tuple(newshape),
-                       subsizes_of(x))
+                       subs)
     if not ok:
-        return True
-    return any(index_struct(x.indices[a]) == axis_struct
-               for a in plan[0] if a < x.ndim)
+        return False
+    if not any(index_struct(x.indices[a]) == axis_struct
+               for a in plan[0] if a < x.ndim):
+        return False
+    try:
+        got, _ = simulate(tuple(x.shape), subs, plan)
+    except Discrepancy:
+        return False
+    return tuple(got) == tuple(newshape)
 
 
 def law_arrays(ch):
@@ -98,10 +117,11 @@ def law_arrays(ch):
         _law_arrays(ch, case)
     except Discrepancy as d:
         if getattr(ch, "ambiguous_prefused", False):
-            # one input class, one signature (open finding): an axis fused
-            # before the call whose sub-sizes happen to equal the next target
-            # entries is unfused although the target only merges / drops
-            raise Discrepancy("reshape:prefused-axis-unfused-by-coincidence",
+            # one input class, one signature (open finding): the shapes admit
+            # two valid regroupings because of an axis fused before the call
+            # (see plan_unfuses) and the library picks the one that does not
+            # undo the earlier reshape
+            raise Discrepancy("reshape:prefused-axis-regrouping-ambiguous",
                               f"[{d.sig}] {d.msg}") from None
         raise
 
@@ -127,12 +147,10 @@ def _law_arrays(ch, case):
         k = ch.integer(0, len(arg) - 1, "wild")
         arg[k] = -1
     arg = arg if form == "list" else tuple(arg)
-    if pre_struct is not None:
-        # forward and identity targets never require an unfuse
-        ch.ambiguous_prefused = (plan_unfuses(x, tgt, pre_struct)
-                                 or plan_unfuses(x, shape, pre_struct))
-        if ch.ambiguous_prefused:
-            ch.count("prefused-axis-coincides-with-target")
+    ch.ambiguous_prefused = False
+    if pre_struct is not None and plan_unfuses(x, tgt, pre_struct):
+        ch.ambiguous_prefused = True
+        ch.count("prefused-axis-regrouping-ambiguous")
     via = ch.choice(["method", "sr", "ar"], "via")
     if via == "method":
         y = must(x.reshape, arg, what="reshape")
@@ -159,7 +177,7 @@ def _law_arrays(ch, case):
                 if index_struct(y.indices[k]) == pre_struct]
         if kept and plan_unfuses(y, shape, pre_struct):
             ch.ambiguous_prefused = True
-            ch.count("prefused-axis-coincides-with-target")
+            ch.count("prefused-axis-regrouping-ambiguous")
     z = must(y.reshape, shape, what="reshape-back")
     same_array(z, x, "reshape:roundtrip", exact=True,
                what=f"{shape}->{tgt}->{shape}")
@@ -181,7 +199,7 @@ def _law_arrays(ch, case):
         if len(t2) <= 6:
             if pre_struct is not None and plan_unfuses(x, t2, pre_struct):
                 ch.ambiguous_prefused = True
-                ch.count("prefused-axis-coincides-with-target")
+                ch.count("prefused-axis-regrouping-ambiguous")
             e = must(x.reshape, tuple(t2), what="reshape-expand")
             require_valid(e, "reshape-expand:invalid", f"{shape}->{t2}")
             require(e.ndim == len(t2) and all(
